@@ -73,7 +73,11 @@ class CompoundGammaDirichletPrior(CallableModel):
         )
 
     def _sample_shape(self) -> torch.Size:
-        return self.tree_model.sample_shape
+        return max(
+            [self.tree_model.sample_shape]
+            + [parameter.shape[:-1] for parameter in self._parameters.values()],
+            key=len,
+        )
 
     @classmethod
     def from_json(
